@@ -16,6 +16,9 @@ pub enum Mode {
     Every(u8),
     /// a publish request is queued before every tick for n elapsed intervals, then the client goes silent
     ActiveThenSilent(u8),
+    /// the client's first publish request comes n (1 or 2) elapsed intervals late; from then on a request is queued before
+    /// every tick
+    LateThenAlways(u8),
 }
 
 #[derive(Clone, Debug, Serialize, Deserialize, PartialEq)]
@@ -36,7 +39,7 @@ fn case() -> impl Strategy<Value = Case> {
         1u32..13,
         prop_oneof![3 => Just(0u32), 2 => 1u32..5],
         proptest::bool::weighted(0.8),
-        prop_oneof![4 => Just(Mode::Always), 3 => prop_oneof![-4i8..-1, 1i8..4].prop_map(Mode::Never), 2 => (2u8..7).prop_map(Mode::Every), 3 => (1u8..30).prop_map(Mode::ActiveThenSilent)],
+        prop_oneof![4 => Just(Mode::Always), 3 => prop_oneof![-4i8..-1, 1i8..4].prop_map(Mode::Never), 2 => (2u8..7).prop_map(Mode::Every), 3 => (1u8..30).prop_map(Mode::ActiveThenSilent), 2 => (1u8..3).prop_map(Mode::LateThenAlways)],
         prop_oneof![3 => Just(0u8), 1 => Just(1u8), 1 => Just(2u8)],
         1u16..400,
     )
@@ -82,8 +85,10 @@ fn run(ctx: &Ctx, c: &Case) -> PResult {
     let desc = format!("keep-alive count {}, lifetime count {}, publishing {}, {:?}, tick every {} ms", ka, lt, if c.enabled { "enabled" } else { "disabled" }, c.mode, delta);
 
     match &c.mode {
-        Mode::Always | Mode::Every(_) => {
+        Mode::Always | Mode::Every(_) | Mode::LateThenAlways(_) => {
             let every = if let Mode::Every(n) = c.mode { Some(n as u32) } else { None };
+            // requests are held back until this many intervals have elapsed
+            let late = if let Mode::LateThenAlways(n) = c.mode { n as u32 } else { 0 };
             let mut last_ka: Option<u32> = None;
             let mut keep_alives = 0u32;
             let mut first_ka_at: Option<u32> = None;
@@ -109,7 +114,8 @@ fn run(ctx: &Ctx, c: &Case) -> PResult {
                             // requests always available: never expires. One request every n < lifetime - 1 intervals: the
                             // client never stays silent for about lifetime-count intervals, so an expiry comes "before"
                             let silent_ok = match every {
-                                None => true,
+                                // a late start that is itself about a lifetime of silence may legitimately end in an expiry
+                                None => late == 0 || late + 2 < lt,
                                 Some(n) => n + 1 < lt,
                             };
                             if !c.enabled && every.is_none() {
@@ -142,7 +148,7 @@ fn run(ctx: &Ctx, c: &Case) -> PResult {
                     Some(t) => (fx.now + chrono::Duration::milliseconds(delta) - t).num_milliseconds() >= INTERVAL_MS,
                 };
                 let supply = match every {
-                    None => fx.queue_lens().0 == 0,
+                    None => clock.elapsed_count >= late && fx.queue_lens().0 == 0,
                     Some(n) => will_elapse && (clock.elapsed_count + 1) % n == 0 && fx.queue_lens().0 == 0,
                 };
                 if supply {
@@ -160,9 +166,14 @@ fn run(ctx: &Ctx, c: &Case) -> PResult {
                 let out = fx.tick(ctx, delta)?;
                 handle(ctx, &clock, out, &mut last_ka, &mut keep_alives, &mut first_ka_at)?;
             }
-            ctx.class(if every.is_some() { "intermittent_requests" } else if c.enabled { "always_available_enabled" } else { "always_available_disabled" });
+            ctx.class(if every.is_some() { "intermittent_requests" } else if late > 0 { "first_request_late_then_always_available" } else if c.enabled { "always_available_enabled" } else { "always_available_disabled" });
             if every.is_none() && c.enabled {
-                if clock.elapsed_count >= 2 {
+                if late > 0 {
+                    // the first keep-alive answers the late request; after that they must keep flowing
+                    if clock.elapsed_count > late + ka + 1 && first_ka_at.is_none() {
+                        return ctx.fail("keep-alive/none-after-late-start", format!("{}: no keep-alive in {} elapsed intervals", desc, clock.elapsed_count));
+                    }
+                } else if clock.elapsed_count >= 2 {
                     match first_ka_at {
                         None => return ctx.fail("keep-alive/first-missing", format!("{}: no keep-alive in {} elapsed intervals", desc, clock.elapsed_count)),
                         Some(n) if n > 2 => return ctx.fail("keep-alive/first-late", format!("{}: first keep-alive only at interval {}", desc, n)),
